@@ -663,11 +663,13 @@ CONFIG = {
     "C18": dict(
         modules=["Mdns.Props.C18"],
         model_files="Mdns/Model/Intf.lean",
-        nontrivial=_c18_nontrivial,
+        nontrivial=lambda r: (_sim_nontrivial(r) if r["op"].startswith("sim") else _c18_nontrivial(r)),
+        extra_evidence=lambda recs: _sim_extra([r for r in recs if r["op"].startswith("sim")]),
         partial=[
-            "component level only: IfKind::matches, the selection loop, resolve_addr_to_index, valid_ip_on_intf, get_addrs_on_my_intf_v4/v6",
-            "not yet covered (daemon level): every packet for a service leaves only on selected interfaces in a common subnet and carries only such addresses (send_only_on_link)",
-            "not yet covered (daemon level): addr_auto services follow address changes; records learned on a removed interface disappear (intf_removed_spec); family_disabled_spec",
+            "theorems are about the component level (IfKind::matches, the selection loop, resolve_addr_to_index, valid_ip_on_intf, get_addrs_on_my_intf_v4/v6); "
+            "the daemon level (what leaves on which interface, what is still reported after a disable / after an interface vanished) has no model: it is decided by "
+            "the monitor Mdns/Driver/MonLink.lean on `sim C18` histories, which computes the enabled addresses with the proved selection function",
+            "not covered: addr_auto services following address changes; 'instances that lost other records are resolved again with what is left'; IpAdd / IpDel events",
         ],
         rule="exhaustive: every IfKind of a 19-kind alphabet against 11 interfaces (v4/v6, loopback, index none/0, shared names); every "
              "enable/disable sequence of length <= 3 over 6 kinds and of length 4 over 4 kinds on topologies of 1-3 interfaces; every "
@@ -676,7 +678,11 @@ CONFIG = {
              "selection sequences (length <= 6) on random tables (<= 4 entries, duplicates, empty), Addr selections resolved against "
              "the table of their call and applied to a later table, service address sets against interface address sets. "
              "Non-trivial = at least one selection and one interface / same-family subnet test / non-empty address sets. "
-             "Distinct = distinct op lines.",
+             "Distinct = distinct op lines. PLUS daemon level (`sim C18`, harness/src/c18.rs gen_links): one daemon on 1-3 simulated interfaces "
+             "(IPv4 only, IPv6 only, dual stack, three subnets), a browse and sometimes a hostname search, announcements of a dual-stack "
+             "responder delivered on chosen links (an IPv4-only interface learns AAAA records too), an own registration with addresses "
+             "on several subnets, 1-3 enable / disable selections of every kind and changes of the interface table (interface or one "
+             "address removed, interface added, table restored), then the interface check and a fresh browse / search reporting from the cache.",
         level_text="Component-level part of C18. Lean theorems: an interface is selected iff the last matching selection (in call order) "
                    "enables it, enabled by default, independently of the other interfaces present, hence also for interfaces that appear "
                    "later (selected_iff, selected_later_interface, last_match_wins); an Addr selection is stored as index + family when the "
@@ -686,7 +692,11 @@ CONFIG = {
                    "family lying in the subnet of one of the interface's addresses (addrsOnIntf_iff, addrsOnIntf_sublist). The model is compared "
                    "with Zeroconf::selected_intfs (called on a real Zeroconf value), IfKind::matches, resolve_addr_to_index, valid_ip_on_intf "
                    "and get_addrs_on_my_intf_v4/v6 of the working tree on every run and the theorems' conclusions are evaluated on the real "
-                   "outputs. The daemon-level clauses (see coverage.partial) are not covered yet.",
+                   "outputs. Daemon level: the monitor (MonLink.lean) computes, with that proved selection function, the enabled addresses at "
+                   "every point of a real history and checks that no datagram leaves on an interface / family without one, that own addresses "
+                   "are sent only inside the subnet of the interface, that addresses learned on an interface (family) that a disable call "
+                   "emptied are no longer reported, and that after an interface vanished and the interface check ran nothing learned only "
+                   "there is reported.",
         level_note="Trusted: Lean kernel; axioms propext, Classical.choice, Quot.sound only; hand-written model tied to the code by differential "
                    "testing of this run's inputs; IfKind::Predicate is exercised with two named predicate families shared by harness and model.",
         assumptions=[
